@@ -7,8 +7,8 @@ import PlinioVerif.Model.MPS
 mps pc=<0|1> ap=[8,2,4] ip=[2,8] wp=[4,2] nodes=[in:3,conv:0:2:3:4:3:3:8:8:1,pass:1,...]
     ao=[0:[1/2,3/4],1:[..]] aw=[1:[..]]            (per-channel: aw=[1:[[row0],[row1]]])
 ```
-node tokens: `in:C`, `conv|dw:a:lt:cin:cout:k0:k1:o0:o1:bias[:dup[:ta]]` (lt 1|2; dup=1: further call
-site of an earlier layer module, ta: tensor node fed to its first call site), `lin:a:cin:cout:bias`,
+node tokens: `in:C`, `conv|dw:a:lt:cin:cout:k0:k1:o0:o1:bias[:dup[:ta[:tf]]]` (lt 1|2; dup=1: further
+call site of an earlier layer module, ta: tensor node fed to its first call site, tf: node of that first call site), `lin:a:cin:cout:bias`,
 `pass:a`, `flat:a:mult`, `add:a:b`, `out:a`.  `ao`/`aw` give, per node index of a searchable module,
 the coefficients of the object found at its out / weight slot; the model reads the coefficients of a
 quantizer *object* at the first slot that carries it (its own sharing), so a sharing mismatch shows
@@ -33,6 +33,13 @@ def parseNode? (t : String) : Option Node :=
     let lt ← if lt = "1" then some LType.conv1d else if lt = "2" then some LType.conv2d else none
     pure { kind, a := ← a.toNat?, lt, cin := ← cin.toNat?, cout := ← cout.toNat?, k0 := ← k0.toNat?,
            k1 := ← k1.toNat?, o0 := ← o0.toNat?, o1 := ← o1.toNat?, bias := b = "1", dup := dup = "1" }
+  | [k, a, lt, cin, cout, k0, k1, o0, o1, b, dup, ta, tf] => do
+    -- … and the node of the first call site (the call sites of a module share one component)
+    let kind ← if k = "conv" then some Kind.conv else none
+    let lt ← if lt = "1" then some LType.conv1d else if lt = "2" then some LType.conv2d else none
+    pure { kind, a := ← a.toNat?, lt, cin := ← cin.toNat?, cout := ← cout.toNat?, k0 := ← k0.toNat?,
+           k1 := ← k1.toNat?, o0 := ← o0.toNat?, o1 := ← o1.toNat?, bias := b = "1", dup := dup = "1",
+           ta := ← ta.toNat?, tf := ← tf.toNat? }
   | [k, a, lt, cin, cout, k0, k1, o0, o1, b, dup, ta] => do
     -- … with the tensor node fed to the first call site (tie edge of the sharing graph)
     let kind ← if k = "conv" then some Kind.conv else if k = "dw" then some Kind.dw else none
